@@ -113,6 +113,53 @@ Theorem C09_decode_predicate_holds : forall (u : uni) (e : encoding) (k : key),
 Proof. exact enc_roundtrip. Qed.
 Print Assumptions C09_decode_predicate_holds.
 
+(* ---------- cross-protocol ---------- *)
+
+(* [both_expressible] (model/Keys.v, fixed before the check was first run): printable ASCII typed
+   without Shift; Shift+letter (legacy: the upper-case byte); Alt+character (ESC c) for the c that
+   form a complete escape sequence; Alt+Shift+letter (ESC C); Ctrl+letter except h i m, Ctrl+\ and
+   Ctrl+]; Tab, Shift+Tab, Enter, Esc, Backspace, Alt+Backspace; arrows, Home, End, Insert, Delete,
+   PgUp, PgDown, KP_Begin, F1-F20 with each of the 64 modifier sets.  [legacy_encs]/[kitty_encs] list
+   every legacy / kitty encoding of the chord (SS3 and CSI forms, with or without alternate codes,
+   base-layout code, text, explicit press event, Caps/Num Lock bits).
+   For every such chord and every pair of encodings outside the two recorded findings, the decoded
+   keys have the same String() and match exactly the same bindings (r, mods), r <> 0 (the rune 0
+   stands for "unset" in Key).  For every oracle that agrees with ASCII on ASCII, has no class for
+   out-of-range values, and never upper-cases a lower-case rune to an ASCII non-letter. *)
+Theorem C09_cross_protocol : forall (u : uni), upper_hyp u -> ascii_like u ->
+  forall (c : chord) (sl sk : kseq),
+  In c both_expressible -> In sl (legacy_encs c) -> In sk (kitty_encs c) ->
+  guard_esc_upper c = false -> guard_shift_noalt c sk = false ->
+  key_string u (decode_key u sl) = key_string u (decode_key u sk) /\
+  forall r mods, r <> 0 -> matches u (decode_key u sl) r mods = matches u (decode_key u sk) r mods.
+Proof.
+  intros u H1 H2 c sl sk Hc Hl Hk G1 G2. apply (cross_protocol u H1 H2 c sl sk Hc Hl Hk).
+  unfold cross_guard. now rewrite G1, G2.
+Qed.
+Print Assumptions C09_cross_protocol.
+
+(* finding esc-upper: Alt+Shift+a. legacy ESC A decodes to "Alt+A", kitty CSI 97:65;4u to "Alt+Shift+a";
+   the binding Alt+Shift+a matches only the kitty event. *)
+Theorem C09_cross_protocol_esc_upper_refuted :
+  let c := mkChord 97 3 in let sl := SESC [] 65 in let sk := SCSI [] [[97; 65]; [4]] 117 in
+  In c both_expressible /\ In sl (legacy_encs c) /\ In sk (kitty_encs c) /\ guard_esc_upper c = true /\
+  key_string ascii_uni (decode_key ascii_uni sl) = [65; 108; 116; 43; 65] /\
+  key_string ascii_uni (decode_key ascii_uni sk) = [65; 108; 116; 43; 83; 104; 105; 102; 116; 43; 97] /\
+  matches ascii_uni (decode_key ascii_uni sl) 97 3 = false /\
+  matches ascii_uni (decode_key ascii_uni sk) 97 3 = true.
+Proof. exact cross_esc_upper_refuted. Qed.
+Print Assumptions C09_cross_protocol_esc_upper_refuted.
+
+(* finding kitty-shift-without-alternate: Shift+a. legacy byte A matches the binding ('A', no mods);
+   kitty CSI 97;2u (no shifted alternate code) does not. *)
+Theorem C09_cross_protocol_shift_noalt_refuted :
+  let c := mkChord 97 1 in let sl := SPrint [65] in let sk := SCSI [] [[97]; [2]] 117 in
+  In c both_expressible /\ In sl (legacy_encs c) /\ In sk (kitty_encs c) /\ guard_shift_noalt c sk = true /\
+  matches ascii_uni (decode_key ascii_uni sl) 65 0 = true /\
+  matches ascii_uni (decode_key ascii_uni sk) 65 0 = false.
+Proof. exact cross_shift_noalt_refuted. Qed.
+Print Assumptions C09_cross_protocol_shift_noalt_refuted.
+
 (* ---------- non-vacuity ---------- *)
 Example C09_ex_sound : matches ascii_uni (mkKey [65] 97 65 0 1 0) 65 0 = true
                        /\ matches ascii_uni (mkKey [65] 97 65 0 1 0) 65 4 = false.
@@ -131,3 +178,7 @@ Example C09_ex_csi :
 Proof. vm_compute. repeat split; reflexivity. Qed.
 Example C09_ex_ss3 : lookup1 ss3_spec 80 = Some KeyF01.
 Proof. reflexivity. Qed.
+Example C09_ex_cross_hyps : upper_hyp ascii_uni /\ ascii_like ascii_uni.
+Proof. exact (conj ascii_uni_upper_hyp ascii_uni_like). Qed.
+Example C09_ex_cross_size : zlen both_expressible = 2181.
+Proof. vm_compute. reflexivity. Qed.
